@@ -42,6 +42,14 @@ type lcPath struct {
 	unsigned map[string]bool
 	problems []string // side conditions that could not be established on this path
 	summary  func(call *ssa.Call) (linForm, bool)
+	// opaque: loop heads on the path whose phis stand for their value at the
+	// LAST visit of the head (an acyclic path through a loop is the loop-erased
+	// trace of an execution: every block but a loop head is entered from its
+	// predecessor on the path, a head may have been entered from a back edge)
+	opaque map[*ssa.BasicBlock]bool
+	// the loop heads of fn: a phi of a head in the middle of the path is never
+	// resolved through the path's predecessor (see opaque)
+	strictLoops map[*ssa.BasicBlock]bool
 }
 
 // newLcPath prepares the context of one path; install a summary and
@@ -130,7 +138,13 @@ func (c *lcPath) at(v ssa.Value) ssa.Value {
 	for i := 0; i < 12; i++ {
 		v = unwrapLoad(v)
 		ph, ok := v.(*ssa.Phi)
-		if !ok {
+		if !ok || c.opaque[ph.Block()] {
+			return v
+		}
+		if c.strictLoops == nil {
+			c.strictLoops = loopHeads(c.fn)
+		}
+		if hb := ph.Block(); c.strictLoops[hb] && len(c.blocks) > 0 && hb != c.blocks[0] && hb != c.blocks[len(c.blocks)-1] {
 			return v
 		}
 		pos := -1
@@ -507,4 +521,89 @@ func proveNonNeg3(g linForm, hyps []linForm, unsignedSyms map[string]bool) bool 
 // proveEq: f == 0 under the hypotheses.
 func (c *lcPath) proveEq(f linForm) bool {
 	return c.nonNeg(f) && c.nonNeg(newLin().add(f, -1))
+}
+
+// loopHeads: the blocks of fn that have a back edge.
+func loopHeads(fn *ssa.Function) map[*ssa.BasicBlock]bool {
+	heads := map[*ssa.BasicBlock]bool{}
+	for _, b := range fn.Blocks {
+		for _, p := range b.Preds {
+			if b.Dominates(p) {
+				heads[b] = true
+			}
+		}
+	}
+	return heads
+}
+
+// opaqueLoops makes the phis of every loop head but `except` opaque and
+// assumes of each counter among them what its monotonicity gives: a counter
+// that only drops round the loop is at most its initial value, one that only
+// rises at least.
+func (c *lcPath) opaqueLoops(except *ssa.BasicBlock) {
+	c.opaque = map[*ssa.BasicBlock]bool{}
+	for h := range loopHeads(c.fn) {
+		if h != except {
+			c.opaque[h] = true
+		}
+	}
+	for h := range c.opaque {
+		c.assumeMonotone(h)
+	}
+}
+
+func (c *lcPath) assumeMonotone(h *ssa.BasicBlock) {
+	for _, in := range h.Instrs {
+		ph, ok := in.(*ssa.Phi)
+		if !ok {
+			break
+		}
+		if !isInteger(ph.Type()) {
+			continue
+		}
+		var init ssa.Value
+		nInit, dir, okPhi := 0, 0, true
+		for k, p := range h.Preds {
+			if !h.Dominates(p) {
+				init = ph.Edges[k]
+				nInit++
+				continue
+			}
+			b, ok := ph.Edges[k].(*ssa.BinOp)
+			if !ok || b.X != ssa.Value(ph) {
+				okPhi = false
+				break
+			}
+			n, ok := constInt(b.Y)
+			if !ok || (b.Op != token.ADD && b.Op != token.SUB) {
+				okPhi = false
+				break
+			}
+			if b.Op == token.SUB {
+				n = -n
+			}
+			d := 0
+			if n > 0 {
+				d = 1
+			} else if n < 0 {
+				d = -1
+			}
+			if d == 0 || dir != 0 && d != dir {
+				okPhi = false
+				break
+			}
+			dir = d
+		}
+		if !okPhi || nInit != 1 || dir == 0 {
+			continue
+		}
+		me := newLin()
+		me.coef[normSym(ph)] = 1
+		i0 := c.num(init)
+		if dir < 0 {
+			c.assume(i0.add(me, -1))
+		} else {
+			c.assume(me.add(i0, -1))
+		}
+	}
 }
